@@ -33,6 +33,17 @@ std::thread_local! {
 /// Reset the virtual clock (the harness calls this at the start of an execution).
 pub fn reset_virtual_clock() {
   VIRTUAL_NANOS.with(|c| c.set(0));
+  PARKS.with(|c| c.set(0));
+}
+
+std::thread_local! {
+  /// Number of `park` / `park_timeout` calls in the current execution.
+  static PARKS: std::cell::Cell<u64> = const { std::cell::Cell::new(0) };
+}
+
+/// How many times a thread parked (plain or timed) since the last reset.
+pub fn park_count() -> u64 {
+  PARKS.with(|c| c.get())
 }
 
 fn advance_virtual_clock(d: std::time::Duration) {
@@ -79,8 +90,14 @@ pub(crate) mod thread {
 
   use std::time::Duration;
 
+  pub fn park() {
+    super::PARKS.with(|c| c.set(c.get() + 1));
+    shuttle::thread::park();
+  }
+
   /// See the module docs: yield once, then the timeout has elapsed.
   pub fn park_timeout(duration: Duration) {
+    super::PARKS.with(|c| c.set(c.get() + 1));
     shuttle::thread::yield_now();
     super::advance_virtual_clock(duration);
   }
